@@ -246,6 +246,8 @@ func onlyWriters(c *Ctx, rule, owner, field string, allowed map[string]string, m
 		seen[k] = true
 		if reason, ok := allowed[name]; ok {
 			c.Pass(rule, k, w.In.Pos(), 1, "allowed writer (%s)", reason)
+		} else if via := helperOfAllowed(c, Root(w.Fn), allowed, 2); via != "" {
+			c.Pass(rule, k, w.In.Pos(), 2, "unexported helper called only from allowed writer(s) %s", via)
 		} else {
 			c.Fail(rule, k, w.In.Pos(), 1, "%s.%s is written (%s) in %s, not in the allowed writer table %v", owner, field, w.Kind, name, keys(allowed))
 		}
@@ -588,4 +590,29 @@ func helperOfAllowed(c *Ctx, r *ssa.Function, allowed map[string]string, depth i
 	}
 	sortStrings(via)
 	return strings.Join(via, ",")
+}
+
+// heldAtEveryCall: every call site of fn (to the given caller depth) executes with lock id held,
+// either at the site itself or because the calling function is in turn only called with it held.
+func heldAtEveryCall(c *Ctx, fn *ssa.Function, id string, depth int) (bool, int) {
+	n := 0
+	for _, cs := range c.P.CallersOf(fn) {
+		if cs.Site == nil {
+			continue
+		}
+		n++
+		cls := ComputeLockSets(cs.Caller)
+		if cls.Holds(cs.Site.(ssa.Instruction), id, false) {
+			continue
+		}
+		if depth <= 0 {
+			return false, n
+		}
+		ok, m := heldAtEveryCall(c, cs.Caller, id, depth-1)
+		n += m
+		if !ok || m == 0 {
+			return false, n
+		}
+	}
+	return n > 0, n
 }
